@@ -111,34 +111,59 @@ def run(ctx):
         if not model_ok:
             ctx.log(outm[-1500:])
         proved = ctx.prove("C09")
-    # ---- real traces + judges
+    # ---- real traces + judges + model correspondence, in batches (a trace with its per-step views is large)
     lines, metas = gen_lines(ctx, n_schedules(ctx.tier))
-    traces = run_traces(ctx, lines, "main")
     tot = {}
     failing = []
     nontrivial = set()
     kinds = {}
     known_hits = 0
-    for i, (l, tr) in enumerate(zip(lines, traces)):
-        v, st = T.judge_trace(tr)
-        for k, x in st.items():
-            tot[k] = max(tot.get(k, 0), x) if k == "max_outstanding" else tot.get(k, 0) + x
-        key = "%s/%s/%s" % (metas[i]["kind"], "relaxed" if metas[i]["relaxed"] else "strict", "deferred" if metas[i]["deferred"] else "immediate")
-        kinds[key] = kinds.get(key, 0) + 1
-        if st["inprogress"] > 0 and st["releases_after_completion"] > 0:
-            # distinct by the sequence of (update id handed, verdict, completion) events and released message kinds
-            sig = []
-            for r in tr[:-1]:
-                sig.append((tuple((w[0], w[2], tuple(w[3])) for w in r["w"]), tuple((p[0], p[2], p[4]) for p in r["p"]),
-                            tuple((c[0], c[2]) for c in r["c"]), tuple((m[0], m[2]) for m in r["m"])))
-            nontrivial.add(hash(tuple(x for x in sig if any(x))))
-        if v:
-            unknown = [x for x in v if not (x.get("key") and ctx.known_match(x["key"]))]
-            if unknown:
-                failing.append((i, unknown))
-            else:
-                known_hits += 1
-                ctx.violation(v[0]["what"], {}, True, key=v[0]["key"])
+    corr_dis = None
+    corr_left = (200 if ctx.tier == "quick" else 1500) if (HAVE_COQ and model_ok) else 0
+    corr_cov = {"model_instances_replayed": 0, "model_steps_compared": 0, "model_disagreements": 0}
+    sample = None
+    BATCH = 600
+    for b0 in range(0, len(lines), BATCH):
+        blines = lines[b0:b0 + BATCH]
+        traces = run_traces(ctx, blines, "main")
+        for j, (l, tr) in enumerate(zip(blines, traces)):
+            i = b0 + j
+            v, st = T.judge_trace(tr)
+            for k, x in st.items():
+                tot[k] = max(tot.get(k, 0), x) if k == "max_outstanding" else tot.get(k, 0) + x
+            key = "%s/%s/%s" % (metas[i]["kind"], "relaxed" if metas[i]["relaxed"] else "strict", "deferred" if metas[i]["deferred"] else "immediate")
+            kinds[key] = kinds.get(key, 0) + 1
+            if st["inprogress"] > 0 and st["releases_after_completion"] > 0:
+                # distinct by the sequence of (update id handed, verdict, completion) events and released message kinds
+                sig = []
+                for r in tr[:-1]:
+                    sig.append((tuple((w[0], w[2], tuple(w[3])) for w in r["w"]), tuple((p[0], p[2], p[4]) for p in r["p"]),
+                                tuple((c[0], c[2]) for c in r["c"]), tuple((m[0], m[2]) for m in r["m"])))
+                nontrivial.add(hash(tuple(x for x in sig if any(x))))
+            if v:
+                unknown = [x for x in v if not (x.get("key") and ctx.known_match(x["key"]))]
+                if unknown:
+                    if len(failing) < 5:
+                        failing.append((i, unknown, tr))
+                else:
+                    known_hits += 1
+                    ctx.violation(v[0]["what"], {}, True, key=v[0]["key"])
+        if sample is None and traces:
+            mid = traces[len(traces) // 2]
+            sample = {"schedule": blines[len(blines) // 2][:600], "steps": [T.summarize_step(r) for r in mid[:-1][:12]]}
+        if corr_left > 0:
+            from props import _c09_model as M
+            n = min(corr_left, len(blines))
+            corr_left -= n
+            try:
+                dis = M.correspondence(ctx, blines[:n], traces[:n])
+            except Exception as ex:
+                dis = [{"error": "model evaluation failed: %r" % (ex,)}]
+            for k in corr_cov:
+                corr_cov[k] += ctx.coverage.get(k, 0)
+            corr_dis = (corr_dis or []) + dis
+        del traces
+    ctx.coverage.update(corr_cov)
     ctx.coverage["evaluations"] = len(lines)
     ctx.coverage["distinct_nontrivial"] = len(nontrivial)
     ctx.coverage["rule"] = ("seeded random schedules over sends/claims/fails/fee updates/single-message deliveries/disconnects/persister verdicts/"
@@ -148,18 +173,11 @@ def run(ctx):
     ctx.coverage["trace_stats"] = tot
     ctx.coverage["traces_validated_against_impl"] = len(lines)
     ctx.coverage["schedules_hitting_known_findings"] = known_hits
-    if traces:
-        mid = traces[len(traces) // 2]
-        ctx.samples.append({"schedule": lines[len(lines) // 2][:600], "steps": [T.summarize_step(r) for r in mid[:-1][:12]]})
-    # ---- correspondence with the model
-    corr_dis = None
-    if HAVE_COQ and model_ok:
-        from props import _c09_model as M
-        ncorr = 200 if ctx.tier == "quick" else 1500
-        corr_dis = M.correspondence(ctx, lines[:ncorr], traces[:ncorr])
+    if sample:
+        ctx.samples.append(sample)
     # ---- decide (DESIGN.md §9)
-    for (i, v) in failing[:3]:
-        report_impl_violation(ctx, lines[i], traces[i], v, 60 if ctx.tier == "quick" else 300)
+    for (i, v, tr) in failing[:3]:
+        report_impl_violation(ctx, lines[i], tr, v, 60 if ctx.tier == "quick" else 300)
     broken = []
     if HAVE_COQ and not proved:
         broken.append({"obligation": "Coq proof of Props/C09.v", "detail": getattr(ctx, "proof_failure", None)})
@@ -167,15 +185,19 @@ def run(ctx):
         broken.append({"correspondence": "h_monupd traces vs Model/MonUpd.v", "first_disagreements": corr_dis[:3], "n": len(corr_dis)})
     if broken and not failing:
         # search harder for a failing input on the implementation before reporting without one
-        extra_n = 1500 if ctx.tier == "quick" else 20000
+        extra_n = 1500 if ctx.tier == "quick" else 9000
         xl, xm = gen_lines(ctx, extra_n, "search")
-        xt = run_traces(ctx, xl, "search")
         found = None
-        for l, tr in zip(xl, xt):
-            v, _ = T.judge_trace(tr)
-            v = [x for x in v if not (x.get("key") and ctx.known_match(x["key"]))]
-            if v:
-                found = (l, tr, v)
+        for b0 in range(0, len(xl), 600):
+            xt = run_traces(ctx, xl[b0:b0 + 600], "search")
+            for l, tr in zip(xl[b0:b0 + 600], xt):
+                v, _ = T.judge_trace(tr)
+                v = [x for x in v if not (x.get("key") and ctx.known_match(x["key"]))]
+                if v:
+                    found = (l, tr, v)
+                    break
+            del xt
+            if found:
                 break
         if found:
             report_impl_violation(ctx, found[0], found[1], found[2], 60)
